@@ -500,11 +500,17 @@ def templates() -> Dict[str, Any]:
             (lambda kind, dopn: lambda i: [P("SYSTEM", f"y{kind[:3].lower()}{i}", dop=dopn, sysparam=kind)])(kind, dopn))
     reg("LK", None, lambda i: [{f"lv{i}": b""}, {f"lv{i}": b"\x01\x02"}, {f"lv{i}": b"\x09", f"lk{i}": 8}],
         lambda i: [P("LENGTH-KEY", f"lk{i}", dop="u8", id=f"L.LK.@PID@.{i}"), P("VALUE", f"lv{i}", dop=f"@PLEN@{i}")])
-    reg("LKSAME", None, lambda i: [{f"in{i}": {"v": b"\x01"}, f"ov{i}": b"\x02\x03"}, {f"in{i}": {"v": b""}, f"ov{i}": b"\x07"}, {f"in{i}": {"v": b"\x01\x02"}, f"ov{i}": b""}],
+    reg("LKSAME", None, lambda i: [{f"in{i}": {"v": b"\x01"}, f"ov{i}": b"\x02\x03"}, {f"in{i}": {"v": b""}, f"ov{i}": b"\x07"}, {f"in{i}": {"v": b"\x01\x02"}, f"ov{i}": b""},
+                                   {f"in{i}": {"v": b"\x01\x02", "lk": 16}, f"ov{i}": b"\x07"}],  # inner key given explicitly, outer one implied
         lambda i: [P("LENGTH-KEY", "lk", dop="u8", id=f"L.LK.@PID@.{i}"), P("VALUE", f"in{i}", dop="S_lk"), P("VALUE", f"ov{i}", dop=f"@PLENSAME@{i}")])
+    # the same with an integer behind the nested structure: a key value that leaks changes the width of the integer silently
+    reg("LKSAMI", None, lambda i: [{f"ini{i}": {"v": b"\x01\x02", "lk": 16}, f"ovi{i}": 0x56}, {f"ini{i}": {"v": b"\x01"}, f"ovi{i}": 0x1234},
+                                   {f"ini{i}": {"v": b"", "lk": 0}, f"ovi{i}": 7}],
+        lambda i: [P("LENGTH-KEY", "lk", dop="u8", id=f"L.LK.@PID@.{i}"), P("VALUE", f"ini{i}", dop="S_lk"), P("VALUE", f"ovi{i}", dop=f"@PLENSAMI@{i}")])
     reg("MUXo", None, lambda i: [{f"mo{i}": ("c0", _item(1, 2))}, {f"mo{i}": ("high", {"a": 4})}, {f"mo{i}": (15, {"a": 4})}], lambda i: [P("VALUE", f"mo{i}", dop="MUXo")])
     reg("TKSAME", None, lambda i: [{f"tin{i}": {"ts": ("r2", 0x1234)}, f"tout{i}": ("r1", _item(1, 2))}, {f"tin{i}": {"ts": ("r1", _item(3, 4))}, f"tout{i}": ("r2", 7)},
-                                   {f"tin{i}": {"ts": ("r3", {"a": 9, "b": 0xBEEF})}, f"tout{i}": ("r3", {"a": 1, "b": 2})}],
+                                   {f"tin{i}": {"ts": ("r3", {"a": 9, "b": 0xBEEF})}, f"tout{i}": ("r3", {"a": 1, "b": 2})},
+                                   {f"tin{i}": {"ts": ("r2", 0x1234), "tk": "r2"}, f"tout{i}": ("r1", _item(1, 2))}],
         lambda i: [P("TABLE-KEY", "tk", table="T", id=f"L.TK.@PID@.{i}"), P("VALUE", f"tin{i}", dop="S_tk"), P("TABLE-STRUCT", f"tout{i}", key="tk", key_id=f"L.TK.@PID@.{i}")])
     reg("TKS", None, lambda i: [{f"ts{i}": ("r1", _item(1, 2))}, {f"ts{i}": ("r2", 0x1234)}, {f"ts{i}": ("r3", {"a": 9, "b": 0xBEEF}), f"tk{i}": "r3"}],
         lambda i: [P("TABLE-KEY", f"tk{i}", table="T", id=f"L.TK.@PID@.{i}"), P("TABLE-STRUCT", f"ts{i}", key=f"tk{i}", key_id=f"L.TK.@PID@.{i}")])
@@ -580,7 +586,7 @@ def templates() -> Dict[str, Any]:
 
 
 SIGMA_FULL = ["CC8", "CC16L", "CCNIB", "PC", "V8", "V12b", "V8b4", "VF32", "SLK", "VLIN", "VDEF", "VTT", "RES8", "RES4", "SYS", "LK", "TKS", "TKSROW", "SFLAT",
-              "SSUB", "SNEST", "SSIZED", "SF2", "SF2p", "DL1", "DL2", "EOP", "EMLAST", "EMCC", "MUXd", "MUXn", "MUXe", "MUXf", "SDYN", "EOPD", "DLD", "EMD", "MUXD", "EOPDE", "EOPLK", "SKB2", "SKB4", "VLDEF", "DTC", "DTCENV", "BZ", "BEOP", "LEAD", "SFV", "EMT", "EMTC", "TKS2", "CCMM", "LKSAME", "RES72", "MUXo", "TKSAME", "DTCL", "TKSN", "RES68b", "RES8b4", "DTCENVR", "CNV"]
+              "SSUB", "SNEST", "SSIZED", "SF2", "SF2p", "DL1", "DL2", "EOP", "EMLAST", "EMCC", "MUXd", "MUXn", "MUXe", "MUXf", "SDYN", "EOPD", "DLD", "EMD", "MUXD", "EOPDE", "EOPLK", "SKB2", "SKB4", "VLDEF", "DTC", "DTCENV", "BZ", "BEOP", "LEAD", "SFV", "EMT", "EMTC", "TKS2", "CCMM", "LKSAME", "LKSAMI", "RES72", "MUXo", "TKSAME", "DTCL", "TKSN", "RES68b", "RES8b4", "DTCENVR", "CNV"]
 SIGMA_SYS = ["SYTS", "SYMINU", "SYHOUR", "SYTZ", "SYDAY", "SYWEEK", "SYMONT", "SYYEAR", "SYCENT", "SYTEST", "SYUSER"]
 SIGMA_3 = ["CC8", "V8", "V12b", "V8b4", "VDEF", "RES8", "LK", "TKS", "SFLAT", "SSIZED", "SF2p", "DL1", "EOP", "MUXd", "DTCENV", "BZ", "SDYN", "EOPD"]
 SIGMA_4 = ["CC8", "V12b", "SSIZED", "DL1", "MUXd", "BZ"]
@@ -596,7 +602,7 @@ def build_program(seq: List[Tuple[str, str]], kind: str = "REQUEST", request: Op
                   max_assign: int = 48) -> Optional[Dict[str, Any]]:
     """seq: list of (template name, mode). Returns None if the sequence is ill-formed by the REFERENCE rules."""
     T = templates()
-    if [t for t, _ in seq].count("LKSAME") > 1 or [t for t, _ in seq].count("TKSAME") > 1:
+    if [t for t, _ in seq].count("LKSAME") + [t for t, _ in seq].count("LKSAMI") > 1 or [t for t, _ in seq].count("TKSAME") > 1:
         return None  # its outer key has a fixed short name: twice in one message would be a duplicate name
     ml = {"auto": "a", "at": "e", "hole": "h", "overlap": "o", "far": "f", "zero": "z"}
     pid = ("q" if kind == "REQUEST" else "p") + "_" + "_".join(f"{t}{ml[m]}" for t, m in seq)
@@ -661,6 +667,10 @@ def build_program(seq: List[Tuple[str, str]], kind: str = "REQUEST", request: Op
             if isinstance(p.get("dop"), str) and p["dop"].startswith("@PLENSAME@"):  # the outer key has the name of the nested structure's key
                 dn = f"pls_{pid}_{idx}"
                 dops.append({"name": dn, "dct": {"k": "PLEN", "base": "A_BYTEFIELD", "key": "lk", "key_id": f"L.LK.{pid}.{idx}"}})
+                p["dop"] = dn
+            if isinstance(p.get("dop"), str) and p["dop"].startswith("@PLENSAMI@"):
+                dn = f"pli_{pid}_{idx}"
+                dops.append({"name": dn, "dct": {"k": "PLEN", "base": "A_UINT32", "key": "lk", "key_id": f"L.LK.{pid}.{idx}"}})
                 p["dop"] = dn
             if isinstance(p.get("dop"), str) and p["dop"].startswith("@ENVR@"):  # ALL-VALUE environment data listed last
                 dn = f"edr_{pid}_{idx}"
